@@ -182,7 +182,7 @@ class C06(Prop):
         ("F", "both traces are defined on every tree with unique ids (second order: >= 2 nodes) — the step raises no IndexError-type failure "
               "(C06_first_order_runs, C06_second_order_runs); the structural assertions of the first-order class (first node is a leaf, last node has "
               "<= 1 neighbour, incl. single-child roots) hold on every tree (C06_trace_no_failing_assert); every node is updated for exactly one step"),
-        ("F", "bounded, all trees <= 9 nodes: all orthogonality-centre assertions hold, every split/link is on an edge, every block read is fresh, and "
+        ("F", "for every tree >= 2 nodes (C06_schedule_ok; bounded companion kept): all orthogonality-centre assertions hold, every split/link is on an edge, every block read is fresh, and "
               "each of two consecutive steps ends with the centre on update_path[0] (C06_schedule_ok_bounded_9)"),
         ("F", "on every tree the second-order (object, signed factor) sequence is a palindrome (C06_second_order_palindrome: path symmetry, "
               "the last two nodes of the update path are adjacent — C06_turning_point_on_edge), hence the step with -H runs the inverse updates in reverse order"),
